@@ -7,7 +7,7 @@ import re
 import tokenize as pt
 
 from harness import impl
-from harness.common import rng, short
+from harness.common import quick_scale, rng, short
 from harness.gen import corpus, mutate, pyprog
 
 KEEP = {"NAME", "NUMBER", "STRING", "OP", "NEWLINE", "INDENT", "DEDENT", "ENDMARKER", "FSTRING_START", "FSTRING_MIDDLE", "FSTRING_END"}
@@ -84,7 +84,7 @@ def number_spellings():
 
 def build_inputs(tier):
     r = rng("C09")
-    N = 1 if tier == "quick" else 30
+    N = quick_scale() if tier == "quick" else 30
     cases = []
     for n in number_spellings():
         cases.append(("number", f"x = {n}\n"))
